@@ -376,3 +376,6 @@ func VerifContinuation(args []string) {
 	vAssert(len(p.Errors()) == 0, "continuation/error-on-incomplete-input")
 	vAssert(p.ContinuationNeeded(), "continuation/not-requested")
 }
+
+// VerifShape exports the harness's structural fingerprint for harnesses of other packages.
+func VerifShape(n ast.Node) string { return verifShapeOf(n, true) }
